@@ -30,6 +30,7 @@ from xpmc import lattice
 from xpmc.engine import Digest
 from xpmc.solvers import construct, call, Inadmissible
 from xpmc.x_c04_quad import adaptive_integral, conserved, flux
+from xpmc.x_c04_lattice import ROOTS, PATHS, FIELDS, root_alphabet, resolve, find_window
 
 ID = "C04"
 LEVEL = "exploration"
@@ -61,16 +62,6 @@ ASSUMPTIONS = [
     "general-EOS solver: agreement only to h*TV(q) + (2/num_int_pts) of the balance scale (class C)",
 ]
 
-G53 = hm.G53
-PATHS = {"IGEOS": "riemann.ep_riemann.IGEOS_Solver", "GenEOS": "riemann.ep_riemann.GenEOS_Solver"}
-
-# one root per wave pattern, all values taken from the alphabet
-ROOTS = {
-    "sod": dict(hm.RIEMANN_BASE, xd0=0.5),                                                                    # RCS
-    "sod_mirror": dict(rl=0.125, pl=0.1, ul=0.0, gl=1.4, rr=1.0, pr=1.0, ur=0.0, gr=1.4, xd0=0.5),            # SCR
-    "collide": dict(rl=1.0, pl=1.0, ul=0.3, gl=1.4, rr=1.0, pr=1.0, ur=-0.3, gr=1.4, xd0=0.5),                # SCS
-    "recede": dict(rl=1.0, pl=1.0, ul=-0.3, gl=1.4, rr=1.0, pr=1.0, ur=0.3, gr=1.4, xd0=0.5),                 # RCR
-}
 K_IGEOS = {"quick": 2, "thorough": 3}
 K_GEN = {"quick": 1, "thorough": 2}
 RES_QUICK = [501, 4001]
@@ -94,12 +85,6 @@ REQUIRED_CELLS = {
     "IGEOS": ["SCS|du=0", "SCS|du!=0", "SCR|du=0", "SCR|du!=0", "RCS|du=0", "RCS|du!=0", "RCR|du!=0"],
     "GenEOS": ["SCS|du!=0", "SCR|du=0", "SCR|du!=0", "RCS|du=0", "RCS|du!=0", "RCR|du!=0"],
 }
-
-
-def root_alphabet(root):
-    """The shared alphabet re-rooted: first value = the root's, then every other alphabet value."""
-    r = ROOTS[root]
-    return {p: [r[p]] + [v for v in vals if v != r[p]] for p, vals in hm.RIEMANN_ALPHABET.items()}
 
 
 def tasks(tier, seed):
@@ -135,43 +120,6 @@ def tasks(tier, seed):
     return out
 
 
-def resolve(task):
-    """Constructor kwargs and the time lattice of a task."""
-    if "table" in task:
-        tab = dict(hm.RIEMANN_TABLE.get(task["table"]) or hm.JWL_TABLE[task["table"]])
-        t = tab.pop("t")
-        c = hm.riemann_mirror(tab) if task["mirror"] else tab
-        times = [0.5 * t, t]
-    else:
-        al = root_alphabet(task["root"])
-        c = lattice.full_cfg(al, task["dev"])
-        times = [0.05, 0.2]
-    if task.get("res"):
-        c = dict(c, num_int_pts=task["res"][0], num_x_pts=task["res"][1])
-    return c, times
-
-
-def jwl_f(c, rho, g):
-    G = g - 1.0
-    R1r, R2r = c["R1"] * c["r0"] / rho, c["R2"] * c["r0"] / rho
-    return c["A"] * (1.0 - G / R1r) * math.exp(-R1r) + c["B"] * (1.0 - G / R2r) * math.exp(-R2r)
-
-
-def energy(c, p, rho, g):
-    """Specific internal energy of an input state from the documented EOS."""
-    f = jwl_f(c, rho, g) if c.get("problem", "igeos") == "JWL" else 0.0
-    return (p - f) / ((g - 1.0) * rho)
-
-
-def generous_window(c, t):
-    if c.get("problem", "igeos") == "JWL":
-        return c["xmin"] + 1.0, c["xmax"] - 1.0
-    return hm.riemann_window(c, t)
-
-
-FIELDS = ("density", "velocity", "pressure", "specific_internal_energy")
-
-
 def pattern_of(s):
     st = str(getattr(s, "soln_type", "?"))
     return st.split("-")[-1] if "-" in st else st
@@ -180,45 +128,20 @@ def pattern_of(s):
 def check_time(name, s, c, t, res, dg, ncalls):
     """One (configuration, time): returns (violations, info) -- info carries pattern / nontrivial / residuals."""
     C = res["counters"]
-    sL = np.array([c["rl"], c["ul"], c["pl"], energy(c, c["pl"], c["rl"], c["gl"])])
-    sR = np.array([c["rr"], c["ur"], c["pr"], energy(c, c["pr"], c["rr"], c["gr"])])
-    fscale = np.maximum(np.maximum(np.abs(sL), np.abs(sR)), 1e-300)
-    fscale[1] = max(fscale[1], math.sqrt(max(c["gl"] * c["pl"] / c["rl"], c["gr"] * c["pr"] / c["rr"])))   # velocities: sound speed
-    A, B = generous_window(c, t)
+    W = find_window(s, c, t, ncalls)
+    sol, sL, sR, fscale, A, B = W["sol"], W["sL"], W["sR"], W["fscale"], W["A"], W["B"]
     vio = []
-    for attempt in range(4):
-        xs = np.linspace(A, B, 2049)
-        sol = call(s, xs, t)
-        ncalls[0] += 1
-        Fm = np.array([np.asarray(sol[n], float) for n in FIELDS])
-        dL = np.abs(Fm - sL[:, None]) / fscale[:, None]
-        dR = np.abs(Fm - sR[:, None]) / fscale[:, None]
-        far_ok = dL[:, :8].max() <= 1e-10 and dR[:, -8:].max() <= 1e-10
-        if far_ok or c.get("problem", "igeos") == "JWL":
-            break
-        A, B = c["xd0"] - 2.0 * (c["xd0"] - A), c["xd0"] + 2.0 * (B - c["xd0"])
     for n in FIELDS:
         dg.add(np.asarray(sol[n], float))
     pat = pattern_of(s)
-    du = "du=0" if c["ul"] == c["ur"] else "du!=0"
-    # input-side book-keeping for narrow known-finding predicates: do the two sides differ in (rho, u, p) at all?
-    lr = "equal-rho-u-p" if (c["rl"], c["ul"], c["pl"]) == (c["rr"], c["ur"], c["pr"]) else "distinct"
+    du, lr = W["du"], W["lr"]
     where = {"t": t, "pattern": pat, "du": du, "lr": lr}
-    if not far_ok:
-        bad = float(max(dL[:, :8].max(), dR[:, -8:].max()))
-        vio.append({"solver": name, "cfg": c, "clause": "conservation:far-field-state", "where": where, "value": bad, "tol": 1e-10,
-                    "detail": {"window": [A, B], "left_returned": Fm[:, 0].tolist(), "left_input": sL.tolist(),
-                               "right_returned": Fm[:, -1].tolist(), "right_input": sR.tolist()}})
+    if not W["far_ok"]:
+        vio.append({"solver": name, "cfg": c, "clause": "conservation:far-field-state", "where": where, "value": W["far_mismatch"], "tol": 1e-10,
+                    "detail": {"window": [A, B], "left_returned": W["Fm"][:, 0].tolist(), "left_input": sL.tolist(),
+                               "right_returned": W["Fm"][:, -1].tolist(), "right_input": sR.tolist()}})
         return vio, {"pattern": pat, "du": du, "lr": lr, "nontrivial": False}
-    # disturbed region from the fields
-    notL = np.where(dL.max(axis=0) > 1e-12)[0]
-    notR = np.where(dR.max(axis=0) > 1e-12)[0]
-    i0 = notL[0] if notL.size else len(xs) - 1
-    i1 = notR[-1] if notR.size else 0
-    xa = min(xs[max(i0 - 1, 0)], c["xd0"])
-    xb = max(xs[min(i1 + 1, len(xs) - 1)], c["xd0"])
-    w = max(xb - xa, 1e-3 * (B - A))
-    a, b = max(xa - 0.25 * w, A), min(xb + 0.35 * w, B)
+    a, b = W["a"], W["b"]
     qL = np.array([sL[0], sL[0] * sL[1], sL[0] * (sL[3] + 0.5 * sL[1] ** 2)])
     qR = np.array([sR[0], sR[0] * sR[1], sR[0] * (sR[3] + 0.5 * sR[1] ** 2)])
     FL, FR = flux(sL[0], sL[1], sL[2], sL[3]), flux(sR[0], sR[1], sR[2], sR[3])
@@ -320,7 +243,7 @@ def postprocess(agg, tier):
     worst = {}
     for r in agg["results"]:
         for name, rr, excess, pat, du, lr in (r or {}).get("_cal", []):
-            if name == "IGEOS" and ((pat == "SCR" and du == "du!=0") or lr == "equal-rho-u-p"):
+            if (name == "IGEOS" and pat == "SCR" and du == "du!=0") or lr == "equal-rho-u-p":
                 continue                      # the two recorded defects; not part of the calibration of the correct code
             w = worst.setdefault(name, {"max_residual_rel": 0.0, "max_residual_minus_bound_rel": -1.0})
             w["max_residual_rel"] = max(w["max_residual_rel"], rr)
